@@ -516,7 +516,15 @@ func checkC07(c *Ctx) string {
 			} else {
 				// Output: the duplicate check is the else-arm of the empty-key test (a conjunction, so no
 				// single condition is known false there); any definite guard means it can be skipped
-				c.Obl(r1, fs.name+": duplicate check unconditional except for the empty-key case", p.Pos(s.Node), len(facts) == 0, fmt.Sprintf("unexpected guards %v", facts))
+				// (the conjunction itself is known false there; it must be false for every index with columns)
+				var unexpected []brFact
+				for _, f := range facts {
+					if !f.Truth && emptyKeyTestOnly(p, fs.Info(), f.Expr) {
+						continue
+					}
+					unexpected = append(unexpected, f)
+				}
+				c.Obl(r1, fs.name+": duplicate check unconditional except for the empty-key case", p.Pos(s.Node), len(unexpected) == 0, fmt.Sprintf("unexpected guards %v", unexpected))
 			}
 		}
 		for _, le := range res.Loops {
@@ -1253,4 +1261,32 @@ func checkC44(c *Ctx) string {
 	return "Static shape of trigger invocation: from every index mutation in UpdateTran every normal path reaches CallTrigger, with (\"\",new)/(old,\"\")/(old,new) arguments per kind of change, after the checker " +
 		"accepted the change; the disable counter is accessed only under its mutex and changed by +1/-1 symmetrically; the trigger function is called only on the enabled edge; WrapPanic has no normal return so the deferred recover re-raises. " +
 		"Cascaded changes go through Delete/update (C08.4) and therefore call triggers too."
+}
+
+// emptyKeyTestOnly: the condition e is false for every index that has columns, whatever its
+// mode (so a path on which e is false is taken by all of them).
+func emptyKeyTestOnly(p *Prog, info *types.Info, e ast.Expr) bool {
+	colsF := p.Field("db19/meta/schema", "Index", "Columns")
+	modeF := p.Field("db19/meta/schema", "Index", "Mode")
+	if colsF == nil || modeF == nil {
+		return false
+	}
+	for _, mode := range []int64{'k', 'i', 'u'} {
+		for _, ncols := range []int64{1, 3} {
+			env := &AbsEnv{Info: info, Atom: func(x ast.Expr) (constant.Value, bool) {
+				if FieldOf(info, x) == modeF {
+					return constant.MakeInt64(mode), true
+				}
+				if call, ok := x.(*ast.CallExpr); ok && IsBuiltin(info, call, "len") && len(call.Args) == 1 && FieldOf(info, call.Args[0]) == colsF {
+					return constant.MakeInt64(ncols), true
+				}
+				return nil, false
+			}}
+			v := env.expr(e)
+			if v == nil || v.Kind() != constant.Bool || constant.BoolVal(v) {
+				return false
+			}
+		}
+	}
+	return true
 }
